@@ -18,7 +18,7 @@ from ..common import Run, repo_import, seed
 from ..tlc import run_tlc, write_cfg
 
 BASE = dict(SuffixMatch=False, NoPrePass=False)
-CFG = {"synth": dict(MaxStreams=3, LabelIds={1, 2, 3, 4, 5, 6, 7, 8}, UserTree=0),
+CFG = {"synth": dict(MaxStreams=3, LabelIds={1, 2, 3, 4, 5, 6, 7, 8, 15}, UserTree=0),
        "user": dict(MaxStreams=3, LabelIds={1, 5, 8, 9, 10, 11, 12, 13}, UserTree=1),
        "user2": dict(MaxStreams=3, LabelIds={1, 2, 5, 8, 11, 12, 14}, UserTree=2),     # a zone name used at two depths
        "tiny": dict(MaxStreams=2, LabelIds={1, 2, 4, 6, 7}, UserTree=0)}
@@ -147,7 +147,7 @@ def check(prop, tier, run: Run, replay_case=None):
             run.violation(clause, replay_case["case"], d)
         run.cov["evaluations"] = 1
         return
-    run.assumptions += ["labels from a universe built to contain suffix/prefix pairs, the root name and generated unit-operation names (A, A/B, A/B/C, A/O1, B, B/A, O1, Site); stream names s, s_2, s",
+    run.assumptions += ["labels from a universe built to contain suffix/prefix pairs, the root name and generated unit-operation names (A, A/B, A/B/C, A/O1, A/O3, B, B/A, O1, Site); stream names s, s_2, s",
                         "user trees Site -> {A -> {A1}, B} and Site -> {A -> {B}, B} (a name used at two depths: ambiguous bare labels); two input classes are known findings (carved out by TLA+ predicates KFUnknown / KFNonLeaf)"]
     nontriv = set()
     for name in ("synth", "user", "user2"):
